@@ -962,3 +962,11 @@ func OnceDo(o *sync.Once, f func()) {
 	defer onceEnd(i, o)
 	f()
 }
+
+// SetMapPolicy / SetPoolPolicy let a single-task run change the policy between operations.
+//
+//go:norace
+func SetMapPolicy(p int) { mapPolicy = int32(p) }
+
+//go:norace
+func SetPoolPolicy(p int) { poolPolicy = int32(p) }
